@@ -32,7 +32,10 @@ R = Registry(
         "state (R4); every default-applying loop covers the table's whole column collection in every ordering mode "
         "(ordered_values: named columns + all remaining ones, filtered by nothing else) and no default application "
         "is narrowed by a positive `key in <supplied>` guard (R5); ORM flush: each record's post-fetch receives the "
-        "compiled parameter set of its own row after an executemany (R6)."
+        "compiled parameter set of its own row after an executemany (R6); which prefetch list is processed at execution "
+        "time, and whether defaults are processed at all, depends on the lists only (R3); the bind parameter of a "
+        "Python-side default / onupdate is named by the same getter that computes the key under which the value is "
+        "stored, in particular '<table>_<key>' for columns of extra FROM tables of a multi-table UPDATE (R7)."
     ),
     not_decided="the values stored; Core executemany with heterogeneous dictionaries (documented: only the first dictionary "
                 "determines the VALUES columns); the ORM's 'None means omitted' rule for INSERT; server-side defaults.",
@@ -251,12 +254,117 @@ def _attr_names(node):
     return {a.attr for a in ast.walk(node) if isinstance(a, ast.Attribute)}
 
 
-@R.rule("C13-R3", floor=15, template="T-SIBLING",
+class _NotAboutTheLists(Exception):
+    pass
+
+
+def _pf_value(e, model):
+    """Value of an expression that reads nothing but the prefetch lists, in the model {<kind>_prefetch: has columns?}
+    (a filled list is [0], an empty one [])."""
+    import operator as op
+    if isinstance(e, ast.Attribute) and e.attr in model:
+        return [0] if model[e.attr] else []
+    if isinstance(e, ast.Constant):
+        return e.value
+    if isinstance(e, ast.Call) and isinstance(e.func, ast.Name) and e.func.id in ("len", "bool", "list", "tuple") and len(e.args) == 1 \
+            and not e.keywords:
+        return {"len": len, "bool": bool, "list": list, "tuple": tuple}[e.func.id](_pf_value(e.args[0], model))
+    if isinstance(e, ast.UnaryOp) and isinstance(e.op, ast.Not):
+        return not _pf_value(e.operand, model)
+    if isinstance(e, ast.BinOp) and isinstance(e.op, ast.Add):
+        return _pf_value(e.left, model) + _pf_value(e.right, model)
+    if isinstance(e, ast.BoolOp):
+        v = None
+        for x in e.values:
+            v = _pf_value(x, model)
+            if bool(v) != isinstance(e.op, ast.And):
+                return v
+        return v
+    if isinstance(e, ast.Compare):
+        ops = {ast.Eq: op.eq, ast.NotEq: op.ne, ast.Gt: op.gt, ast.GtE: op.ge, ast.Lt: op.lt, ast.LtE: op.le, ast.Is: op.is_, ast.IsNot: op.is_not}
+        left = _pf_value(e.left, model)
+        for o, r in zip(e.ops, e.comparators):
+            if type(o) not in ops:
+                raise _NotAboutTheLists()
+            right = _pf_value(r, model)
+            try:
+                if not ops[type(o)](left, right):
+                    return False
+            except TypeError:
+                raise _NotAboutTheLists()
+            left = right
+        return True
+    raise _NotAboutTheLists()
+
+
+def _kleene(test, model, neutral, unknown):
+    """three-valued truth of `test` in the model: leaves that read only the prefetch lists are evaluated, any other
+    leaf is unknown (collected in `unknown` unless it only reads `neutral` state)"""
+    if isinstance(test, ast.UnaryOp) and isinstance(test.op, ast.Not):
+        v = _kleene(test.operand, model, neutral, unknown)
+        return None if v is None else not v
+    if isinstance(test, ast.BoolOp):
+        vs = [_kleene(v, model, neutral, unknown) for v in test.values]
+        if isinstance(test.op, ast.And):
+            return False if any(v is False for v in vs) else (True if all(v is True for v in vs) else None)
+        return True if any(v is True for v in vs) else (False if all(v is False for v in vs) else None)
+    try:
+        return bool(_pf_value(test, model))
+    except _NotAboutTheLists:
+        reads = {dotted(n) or unparse(n) for n in ast.walk(test) if isinstance(n, (ast.Attribute, ast.Name))
+                 and not any(isinstance(p_, ast.Attribute) and p_.value is n for p_ in ast.walk(test))}
+        if not (reads and reads <= set(neutral) | {"len", "bool"}):
+            unknown.append(test)
+        return None
+
+
+def _selector_verdict(guards, model, neutral, judge_all):
+    """Do the branch outcomes `guards` hold in the model (own list filled, other list empty)?
+    ('ok', ..) | ('contradiction', text) | ('narrowed', [leaf texts]) | ('unknown', [leaf texts])"""
+    for t, p in guards:
+        if not judge_all and not any(isinstance(n, ast.Attribute) and n.attr in model for n in ast.walk(t)):
+            continue
+        unknown = []
+        v = _kleene(t, model, neutral, unknown)
+        if v is None:
+            if not unknown:
+                continue
+            opaque = [u for u in unknown if any(isinstance(n, ast.Call) and not (isinstance(n.func, ast.Name) and n.func.id in ("len", "bool"))
+                                                for n in ast.walk(u))]
+            return ("unknown" if opaque else "narrowed"), [unparse(u)[:60] for u in unknown], (unparse(t)[:90], p)
+        if v != p:
+            return "contradiction", [], (unparse(t)[:90], p)
+    return "ok", [], None
+
+
+def _report_selector(ctx, key, verdict, kind, what, loc):
+    how, leaves, guard = verdict
+    other = "update" if kind == "insert" else "insert"
+    if how == "ok":
+        ctx.ok(key, f"{what} whenever `{kind}_prefetch` has columns (and `{other}_prefetch` has none)")
+        return
+    ctx.require(how != "unknown", f"{key}: the condition `{guard[0]}` ({guard[1]}) contains {leaves}, which is not understood")
+    gtxt = f"`{guard[0]}` is {guard[1]}"
+    if how == "contradiction":
+        ctx.violation(key, f"{what} only when {gtxt}, which does not hold when `{kind}_prefetch` has columns and `{other}_prefetch` is "
+                           f"empty: the Python-side {'defaults' if kind == 'insert' else 'onupdate values'} of these columns are never "
+                           f"computed, their bind parameters keep the placeholder None", loc)
+    else:
+        ctx.violation(key, f"{what} only when {gtxt}: the choice depends on {leaves}, not (only) on whether the list has columns. The "
+                           f"compiler fills `{kind}_prefetch` for every {kind.upper()} it compiles, including one nested in a CTE below a "
+                           f"statement of another kind, while flags of the execution context / compiled object describe the top-level "
+                           f"statement only -- the Python-side {'defaults' if kind == 'insert' else 'onupdate values'} of such columns "
+                           f"are then never computed and their bind parameters keep the placeholder None", loc)
+
+
+@R.rule("C13-R3", floor=18, template="T-SIBLING",
         desc="no cross-wiring between insert and update defaults: prefetch-bind creators append to the list of "
              "their kind and are called on paths that test .default / .onupdate respectively; "
              "_process_execute_defaults pairs insert_prefetch with the .default description and get_insert_default "
              "(update likewise), stores at most once per (row, column) following _DefaultDescriptionTuple's field "
-             "order, and sets current_parameters / current_column before a callable default runs")
+             "order, and sets current_parameters / current_column before a callable default runs; which list is processed "
+             "(and whether _process_execute_defaults is called at all) is decided by the prefetch lists themselves, never "
+             "by flags that describe the top-level statement")
 def r3(ctx):
     m = ctx.index.module(CRUD)
     pm = m.parents()
@@ -338,6 +446,41 @@ def r3(ctx):
               "insert and update prefetch records are not built in exclusive branches"
               + ("" if stale is None else " / the record list is appended to without being emptied first"),
               "if insert_prefetch / elif update_prefetch", f.loc, stale)
+    # (b') WHICH list is processed is decided by the lists themselves (str2-f, round-2 seed C13/3): whenever
+    # <compiled>.<kind>_prefetch has columns (and the other list is empty) the <kind> records are built, and
+    # _process_execute_defaults is called.  Any other state that takes part in the choice (flags that describe the
+    # top-level statement, ...) leaves the columns of a filled list unprocessed.
+    row_iters = {unparse(RD.resolve(n.iter, defs)) for n in walk_local(f.node) if isinstance(n, ast.For)}
+    for kind, (n, b, elts) in sorted(recs.items()):
+        other = "update" if kind == "insert" else "insert"
+        model = {f"{kind}_prefetch": True, f"{other}_prefetch": False}
+        verdict = _selector_verdict(RD.guards_of(g, pmd, f.node, b.holder, defs), model, row_iters, judge_all=True)
+        _report_selector(ctx, f"{f.key}:{kind}-arm-selected-by-its-prefetch-list", verdict, kind,
+                         f"the records for `<compiled>.{kind}_prefetch` are built", f.loc)
+    sites = [(cf, cc) for cf, cc in call_sites(ctx.index, f) if not cf.is_overload]
+    ctx.require(sites, "_process_execute_defaults is never called")
+    for key, (cf, cc) in ordinal_keys(sites, lambda s: f"{s[0].key}:_process_execute_defaults:called-whenever-a-prefetch-list-is-filled"):
+        ctx.functions_analysed.add(cf.key)
+        cpm = cf.module.parents()
+        cdefs = RD.single_defs(cf.node)
+        st = enclosing_stmt(cpm, cc)
+        lex = [(RD.expand(t, cdefs), p) for t, p in lexical_guards(cpm, st, stop=cf.node)]
+        dom = [x for x in RD.guards_of(ctx.cfg(cf), cpm, cf.node, st, cdefs)]
+        lex_txt = {(unparse(t), p) for t, p in lex}
+        dom_only = [(t, p) for t, p in dom if (unparse(t), p) not in lex_txt]
+        worst = None
+        for kind in ("insert", "update"):
+            other = "update" if kind == "insert" else "insert"
+            model = {f"{kind}_prefetch": True, f"{other}_prefetch": False}
+            v = _selector_verdict(lex, model, set(), judge_all=True)
+            if v[0] == "ok":
+                v = _selector_verdict(dom_only, model, set(), judge_all=False)
+            if v[0] != "ok" and worst is None:
+                worst = (kind, v)
+        if worst is None:
+            ctx.ok(key, f"called under {[unparse(t)[:60] for t, p in lex] or 'no condition'}: holds whenever either list has columns")
+        else:
+            _report_selector(ctx, key, worst[1], worst[0], "_process_execute_defaults() is called", f"{cf.module.path}:{cc.lineno}")
     # (c) per row chain, following the description tuple's field order
     dt = ctx.index.cls("sql/base.py::_DefaultDescriptionTuple")
     fields = [s.target.id for s in dt.node.body if isinstance(s, ast.AnnAssign) and isinstance(s.target, ast.Name)]
@@ -888,6 +1031,258 @@ def r6(ctx):
         ctx.check(verdict, key, detail, detail, loc)
 
 
+# ---------------------------------------------------------------------- R7 (str2-f, round-2 seed C13/4)
+COMPILER = "sql/compiler.py"
+
+
+def _arg_of(call, callee, pname):
+    """argument expression bound to parameter `pname` of `callee` (FuncInfo) at `call`; None when defaulted"""
+    for k in call.keywords:
+        if k.arg == pname:
+            return k.value
+    ps = [p for p in callee.params if not (callee.cls is not None and p in ("self", "cls"))]
+    if pname in ps:
+        i = ps.index(pname)
+        if i < len(call.args) and not any(isinstance(a, ast.Starred) for a in call.args[: i + 1]):
+            return call.args[i]
+    return None
+
+
+def _key_getter_source(ctx):
+    """The function K of sql/crud.py and the index i such that the key under which _process_execute_defaults stores a
+    computed default is `K(..)[i](column)`; also the chain as text.  Every link is read from the code:
+    record key = <compiled>.<P>(c); SQLCompiler.<P> returns self.<A>; sql/crud.py stores <compiler>.<A> = N with
+    (.., N, ..) = K(..)."""
+    f = ctx.func(f"{DEF}::DefaultExecutionContext._process_execute_defaults")
+    pmd = f.module.parents()
+    defs = RD.single_defs(f.node)
+    props = set()
+    for nm in sorted({n for n, v, st in name_stores(f.node)}):
+        for b in RD.list_builds(f.node, nm, pmd) or []:
+            if b.form in ("comp", "loop") and isinstance(RD.strip_cast(b.elt), ast.Tuple) and isinstance(b.target, ast.Name):
+                it = RD.resolve(b.iter, defs)
+                if not (isinstance(it, ast.Attribute) and it.attr.endswith("_prefetch")):
+                    continue
+                keyed = [e for e in RD.strip_cast(b.elt).elts if isinstance(e, ast.Call) and len(e.args) == 1
+                         and isinstance(e.args[0], ast.Name) and e.args[0].id == b.target.id]
+                ctx.require(len(keyed) == 1, f"prefetch record `{unparse(b.elt)[:70]}` does not carry one `<key getter>(column)`")
+                fn_ = RD.resolve(keyed[0].func, defs)
+                ctx.require(isinstance(fn_, ast.Attribute), f"key getter `{unparse(keyed[0].func)}` of the prefetch records is not an attribute of the compiled object")
+                props.add(fn_.attr)
+    ctx.require(len(props) == 1, f"prefetch records are keyed by {sorted(props)} (expected one key getter for both lists)")
+    prop = next(iter(props))
+    pf = ctx.method(f"{COMPILER}::SQLCompiler", prop)
+    pdefs = RD.single_defs(pf.node)
+    rets = {unparse(RD.resolve(r.value, pdefs)) for r in walk_local(pf.node) if isinstance(r, ast.Return) and r.value is not None}
+    ctx.require(len(rets) == 1 and re.fullmatch(r"self\.\w+", next(iter(rets))), f"SQLCompiler.{prop} returns {sorted(rets)} (expected one attribute of the compiler)")
+    attr = next(iter(rets)).split(".", 1)[1]
+    m = ctx.index.module(CRUD)
+    sources = set()
+    for fn in m.functions.values():
+        if fn.is_overload:
+            continue
+        for d, _t, st in _attr_stores(fn.node):
+            if d.endswith("." + attr) and d.count(".") == 1:
+                v = getattr(st, "value", None)
+                ctx.require(isinstance(v, ast.Name), f"{fn.key}: `{unparse(st)[:70]}` does not store a plain local")
+                src = None
+                for n2 in walk_local(fn.node):
+                    if isinstance(n2, ast.Assign) and len(n2.targets) == 1 and isinstance(n2.targets[0], (ast.Tuple, ast.List)) \
+                            and isinstance(n2.value, ast.Call) and call_name(n2.value) in m.functions:
+                        names = [e.id if isinstance(e, ast.Name) else None for e in n2.targets[0].elts]
+                        if v.id in names:
+                            src = (call_name(n2.value), names.index(v.id), fn, v.id)
+                ctx.require(src is not None, f"{fn.key}: `{v.id}` (stored as {d}) is not unpacked from a call of a sql/crud.py function")
+                sources.add(src)
+    ctx.require(len(sources) == 1, f"the compiler's `{attr}` is assigned from {len(sources)} places in sql/crud.py (expected one)")
+    kname, idx, holder, local = next(iter(sources))
+    return f, prop, attr, m.functions[kname], idx, holder, local
+
+
+def _getter_is_plain_for(ctx, K, idx, kind):
+    """Is `K(..)[idx]` the plain `column.key` getter whenever the statement is of `kind`?  True when every binding of
+    the returned name that is not `operator.attrgetter("key")` sits under a positive `is<other kind>(..)` test.
+    Also returns the attribute of the compile state whose tables get qualified names."""
+    pm = K.module.parents()
+    rets = [r for r in walk_local(K.node) if isinstance(r, ast.Return) and isinstance(r.value, ast.Tuple) and len(r.value.elts) > idx]
+    ctx.require(len(rets) == 1 and isinstance(rets[0].value.elts[idx], ast.Name), f"{K.key}: result tuple not understood")
+    g_name = rets[0].value.elts[idx].id
+    plain, qualified = [], []
+    for n in walk_local(K.node):
+        if isinstance(n, ast.Assign) and any(isinstance(e, ast.Name) and e.id == g_name for t in n.targets for e in ast.walk(t)):
+            v = n.value
+            ok = isinstance(v, ast.Call) and (call_name(v) or "").endswith("attrgetter") and len(v.args) == 1 \
+                and isinstance(v.args[0], ast.Constant) and v.args[0].value == "key"
+            ctx.require(ok, f"{K.key}: `{g_name}` bound to `{unparse(v)[:60]}` (not understood)")
+            plain.append(n)
+        elif isinstance(n, ast.FunctionDef) and n.name == g_name:
+            qualified.append(n)
+    ctx.require(plain and len(qualified) <= 1, f"{K.key}: bindings of `{g_name}` not understood")
+    extra_attrs = set()
+    only_other_kind = True
+    for q in qualified:
+        atoms = guard_atoms(lexical_guards(pm, q, stop=K.node))
+        if not any(p and re.search(r"\bis(?!%s\b)(insert|update|delete)\(" % kind, a) for a, p in atoms):
+            only_other_kind = False
+        # the tables whose columns get a qualified name: `<col>.table in S`, S built from <compile_state>.<attr>
+        kd = RD.single_defs(K.node)
+        for t in (x for x in ast.walk(q) if isinstance(x, ast.Compare) and len(x.ops) == 1 and isinstance(x.ops[0], (ast.In, ast.NotIn))):
+            src = RD.resolve(t.comparators[0], kd, pure_only=False)
+            for a in ast.walk(src):
+                if isinstance(a, ast.Attribute) and isinstance(a.value, ast.Name) and a.value.id in K.params:
+                    extra_attrs.add(a.attr)
+    return only_other_kind, extra_attrs, g_name
+
+
+def _flows_from(ctx, fn, name, target, depth=0):
+    """Is local/parameter `name` of `fn` always the object `target` = (holder function, local name)?  Parameters are
+    followed to every call site inside sql/crud.py."""
+    holder, local = target
+    if fn is holder and name == local:
+        return True
+    if depth > 5:
+        return False
+    defs = RD.single_defs(fn.node)
+    if name in defs and isinstance(defs[name], ast.Name):
+        return _flows_from(ctx, fn, defs[name].id, target, depth + 1)
+    if name not in fn.params or any(n == name for n, _v, _s in name_stores(fn.node)):
+        return False
+    sites = [(cf, cc) for cf, cc in call_sites(ctx.index, fn) if not cf.is_overload]
+    if not sites:
+        return False
+    for cf, cc in sites:
+        a = _arg_of(cc, fn, name)
+        if not (isinstance(a, ast.Name) and _flows_from(ctx, cf, a.id, target, depth + 1)):
+            return False
+    return True
+
+
+def _column_origin(ctx, fn, expr, extra_attrs, depth=0):
+    """Where may the column `expr` (evaluated in `fn`) be drawn from?  ('extra', evidence) when it may come from the
+    tables of <compile_state>.<extra attr>; ('own', evidence) when every source found is a `.c` / `.columns` collection
+    that does not derive from them; (None, why) otherwise.  A may-depend closure over all bindings of the names involved
+    (assignments, loop / comprehension targets, container growth); parameters are followed to the callers."""
+    binds = {}
+    for n in walk_local(fn.node):
+        if isinstance(n, ast.Assign):
+            for t in n.targets:
+                for x in ast.walk(t):
+                    if isinstance(x, ast.Name):
+                        binds.setdefault(x.id, []).append(n.value)
+        elif isinstance(n, (ast.AnnAssign, ast.AugAssign, ast.NamedExpr)) and getattr(n, "value", None) is not None and isinstance(n.target, ast.Name):
+            binds.setdefault(n.target.id, []).append(n.value)
+        elif isinstance(n, (ast.For, ast.AsyncFor, ast.comprehension)):
+            for x in ast.walk(n.target):
+                if isinstance(x, ast.Name):
+                    binds.setdefault(x.id, []).append(n.iter)
+        elif isinstance(n, ast.Call) and isinstance(n.func, ast.Attribute) and isinstance(n.func.value, ast.Name) \
+                and n.func.attr in ("append", "extend", "update", "add", "insert"):
+            binds.setdefault(n.func.value.id, []).extend(n.args)
+    seen, vals, todo = set(), [expr], [x.id for x in ast.walk(expr) if isinstance(x, ast.Name)]
+    while todo:
+        nm = todo.pop()
+        if nm in seen:
+            continue
+        seen.add(nm)
+        for v in binds.get(nm, ()):
+            vals.append(v)
+            todo.extend(x.id for x in ast.walk(v) if isinstance(x, ast.Name))
+    extra = [unparse(a) for v in vals for a in ast.walk(v) if isinstance(a, ast.Attribute) and a.attr in extra_attrs]
+    own = [unparse(a) for v in vals for a in ast.walk(v) if isinstance(a, ast.Attribute) and a.attr in ("c", "columns")]
+    if extra:
+        return "extra", f"`{extra[0]}` in {fn.qualname}"
+    reached_params = [p for p in fn.params if p in seen and p not in binds]
+    verdict = ("own", f"`{own[0]}` in {fn.qualname}") if own else (None, f"no column collection found for `{unparse(expr)}` in {fn.qualname}")
+    if own or depth >= 2:
+        return verdict
+    sites = [(cf, cc) for cf, cc in call_sites(ctx.index, fn) if not cf.is_overload]
+    got = []
+    for cf, cc in sites:
+        for p in reached_params:
+            a = _arg_of(cc, fn, p)
+            if a is not None and not isinstance(a, ast.Constant):
+                got.append(_column_origin(ctx, cf, a, extra_attrs, depth + 1))
+    for want in ("extra", "own"):
+        hit = [g_ for g_ in got if g_[0] == want]
+        if hit:
+            return hit[0]
+    return verdict
+
+
+def _attr_stores(node):
+    from ..astutil import attr_stores
+    return attr_stores(node)
+
+
+@R.rule("C13-R7", floor=8, template="T-TABLE (producer/consumer key agreement)",
+        desc="the bind parameter created for a Python-side default / onupdate is named by the same function of the column "
+             "under which DefaultExecutionContext._process_execute_defaults stores the computed value: the store key is "
+             "<compiled>._within_exec_param_key_getter(c) = the bind-name getter of crud._key_getters_for_crud_column, so "
+             "every _create_*_prefetch_bind_param call passes name=<that getter>(c), or relies on the default name c.key "
+             "only where the getter is c.key (INSERT; UPDATE columns of the statement's own table) -- a column that may "
+             "belong to an extra FROM table (qualified name '<table>_<key>') must be named through the getter")
+def r7(ctx):
+    consumer, prop, attr, K, idx, holder, local = _key_getter_source(ctx)
+    ctx.functions_analysed.update({K.key, holder.key})
+    m = ctx.index.module(CRUD)
+    # the default name of a crud bind is <column>.key
+    cbp = ctx.func(f"{CRUD}::_create_bind_param")
+    col_p = cbp.params[1]
+    default_is_key = any(n == "name" and isinstance(v, ast.Attribute) and isinstance(v.value, ast.Name) and v.value.id == col_p and v.attr == "key"
+                         for n, v, st in name_stores(cbp.node)) and "name" in cbp.params
+    ctx.check(default_is_key, f"{consumer.key}:store-key-is-the-crud-bind-name-getter",
+              f"_create_bind_param no longer defaults the bind name to `{col_p}.key` (the agreement below assumes it)",
+              f"store key = <compiled>.{prop}(c) = compiler.{attr} = result #{idx} (`{local}`) of {K.name}() assigned in {holder.name}; "
+              f"default bind name = `{col_p}.key`", consumer.loc)
+    for kind in ("insert", "update"):
+        creator = ctx.func(f"{CRUD}::_create_{kind}_prefetch_bind_param")
+        ctx.require("name" in creator.params and len(creator.params) >= 2, f"{creator.name} has no `name` parameter")
+        fwd = [c for c in calls_in(creator.node) if call_name(c) == cbp.name]
+        ctx.require(len(fwd) == 1 and isinstance(_arg_of(fwd[0], cbp, "name"), ast.Name) and _arg_of(fwd[0], cbp, "name").id == "name"
+                    and unparse(_arg_of(fwd[0], cbp, col_p) or ast.Constant(value=None)) == creator.params[1],
+                    f"{creator.name} does not forward (column, name) to {cbp.name}")
+        plain_for_kind, extra_attrs, g_name = _getter_is_plain_for(ctx, K, idx, kind)
+        sites = [(cf, cc) for cf, cc in call_sites(ctx.index, creator) if not cf.is_overload]
+        ctx.require(sites, f"{creator.name} is never called")
+        for key, (cf, cc) in ordinal_keys(sites, lambda s: f"{s[0].key}:{creator.name}:bind-name-is-store-key"):
+            ctx.functions_analysed.add(cf.key)
+            loc = f"{cf.module.path}:{cc.lineno}"
+            ctx.require(not any(isinstance(a, ast.Starred) for a in cc.args), f"{cf.key}: starred arguments at `{creator.name}(...)`")
+            col = _arg_of(cc, creator, creator.params[1])
+            ctx.require(col is not None, f"{cf.key}: column argument of `{creator.name}(...)` not found")
+            nm = _arg_of(cc, creator, "name")
+            cdefs = RD.single_defs(cf.node)
+            nm_r = RD.resolve(nm, cdefs, pure_only=False) if nm is not None else None
+            if nm_r is None or (isinstance(nm_r, ast.Constant) and nm_r.value is None) or \
+                    (isinstance(nm_r, ast.Attribute) and nm_r.attr == "key" and unparse(nm_r.value) == unparse(col)):
+                how = "default"
+            elif isinstance(nm_r, ast.Call) and isinstance(nm_r.func, ast.Name) and len(nm_r.args) == 1 and not nm_r.keywords \
+                    and unparse(nm_r.args[0]) == unparse(col) and _flows_from(ctx, cf, nm_r.func.id, (holder, local)):
+                how = "getter"
+            else:
+                how = "other"
+            if how == "getter":
+                ctx.ok(key, f"name=`{unparse(nm_r)}`: the getter that also computes the store key")
+                continue
+            if how == "default" and plain_for_kind:
+                ctx.ok(key, f"default name `{unparse(col)}.key`; for {kind.upper()} the getter `{g_name}` is attrgetter('key')")
+                continue
+            origin, ev = _column_origin(ctx, cf, col, extra_attrs) if extra_attrs else (None, "the tables with qualified bind names could not be determined")
+            named = f"`{unparse(nm_r)}`" if how == "other" else f"`{unparse(col)}.key` (the default of {cbp.name})"
+            if origin == "own" and how == "default":
+                ctx.ok(key, f"default name `{unparse(col)}.key`; the column comes from {ev} (the statement's own table, where `{g_name}` is the key)")
+                continue
+            ctx.require(origin is not None and (how == "default" or origin == "extra"),
+                        f"{cf.key}: bind name {named} for `{unparse(col)}` at `{creator.name}(...)` cannot be related to the store key ({ev})")
+            ctx.violation(key,
+                          f"the bind parameter for the Python-side {'default' if kind == 'insert' else 'onupdate'} of `{unparse(col)}` is named "
+                          f"{named}, but {consumer.qualname} stores the computed value under `<compiled>.{prop}({unparse(col)})` = "
+                          f"`{g_name}({unparse(col)})` of {K.name}(), which is '<table>_<key>' for a column of a table in "
+                          f"{sorted(extra_attrs)} -- and `{unparse(col)}` is drawn from {ev}: the rendered parameter and the stored "
+                          f"value never meet, the column is written with the placeholder None (siblings in the same function name "
+                          f"their binds `{g_name}({unparse(col)})`)", loc)
+
+
 # ---------------------------------------------------------------------- self-test battery
 R.mutant("default-outside-else-chain", CRUD,
          sub("        # adding supplemental cols to implicit_returning in table\n",
@@ -1073,3 +1468,101 @@ R.mutant("benign-rob-append-param-update-as-guard-clauses", CRUD,
          RD.ast_edit("_append_param_update", RD.t_chain_to_returns("c.onupdate is not None")), None)
 R.mutant("rob-append-param-update-guard-clause-without-return", CRUD,
          RD.ast_edit("_append_param_update", RD.t_chain_to_returns("c.onupdate is not None"), RD.t_drop_return("c.server_onupdate is not None")), "C13-R2")
+
+# ---- str2-f (round 2): seeds C13/3 (prefetch arm chosen by statement kind) and C13/4 (prefetch bind not named by the getter)
+_ARM_INS = "        if compiled.insert_prefetch:\n            prefetch_recs = [\n"
+_ARM_UPD = "        elif compiled.update_prefetch:\n            prefetch_recs = [\n"
+_ARM_ELSE = "        else:\n            prefetch_recs = []\n\n        for param in self.compiled_parameters:\n"
+_CALL_SITE = "        if self.compiled.insert_prefetch or self.compiled.update_prefetch:\n            self._process_execute_defaults()\n"
+R.mutant("seed3-prefetch-arm-selected-by-statement-kind", DEF,
+         chain(sub(_ARM_INS, "        if self.isinsert:\n            prefetch_recs = [\n"),
+               sub(_ARM_UPD, "        elif self.isupdate:\n            prefetch_recs = [\n")), "C13-R3")
+R.mutant("insert-arm-additionally-requires-top-level-insert", DEF,
+         sub(_ARM_INS, "        if compiled.insert_prefetch and self.isinsert:\n            prefetch_recs = [\n"), "C13-R3")
+R.mutant("defaults-processed-only-for-top-level-dml", DEF,
+         sub(_CALL_SITE, "        if self.isinsert or self.isupdate:\n            self._process_execute_defaults()\n"), "C13-R3")
+R.mutant("defaults-processed-only-when-insert-prefetch-filled", DEF,
+         sub(_CALL_SITE, "        if self.compiled.insert_prefetch:\n            self._process_execute_defaults()\n"), "C13-R3")
+R.mutant("benign-s2f-arms-with-empty-case-first", DEF,
+         chain(sub(_ARM_INS, "        if not compiled.insert_prefetch and not compiled.update_prefetch:\n            prefetch_recs = []\n"
+                             "        elif compiled.insert_prefetch:\n            prefetch_recs = [\n"),
+               sub(_ARM_UPD, "        else:\n            prefetch_recs = [\n"),
+               sub(_ARM_ELSE, "\n        for param in self.compiled_parameters:\n")), None)
+R.mutant("benign-s2f-arms-by-length-snapshots", DEF,
+         chain(sub(_ARM_INS, "        n_insert = len(compiled.insert_prefetch)\n        if n_insert > 0:\n            prefetch_recs = [\n"),
+               sub(_ARM_UPD, "        elif len(compiled.update_prefetch) != 0:\n            prefetch_recs = [\n")), None)
+R.mutant("benign-s2f-early-return-when-both-lists-empty", DEF,
+         sub("        sentinel_counter = 0\n\n" + _ARM_INS,
+             "        sentinel_counter = 0\n\n        if not (compiled.insert_prefetch or compiled.update_prefetch):\n            return\n\n" + _ARM_INS), None)
+R.mutant("benign-s2f-call-site-tests-a-boolean-local", DEF,
+         sub(_CALL_SITE, "        has_prefetch = bool(\n            self.compiled.insert_prefetch or self.compiled.update_prefetch\n        )\n"
+                         "        if has_prefetch:\n            self._process_execute_defaults()\n"), None)
+_MT_SITE = ("                            _create_update_prefetch_bind_param(\n"
+            "                                compiler, c, name=_col_bind_name(c), **kw\n                            ),\n")
+R.mutant("seed4-multitable-onupdate-prefetch-bind-gets-default-name", CRUD,
+         sub(_MT_SITE, "                            _create_update_prefetch_bind_param(\n                                compiler, c, **kw\n"
+                       "                            ),\n"), "C13-R7")
+R.mutant("multitable-onupdate-prefetch-bind-named-by-dict-key-getter", CRUD,
+         sub(_MT_SITE, "                            _create_update_prefetch_bind_param(\n"
+                       "                                compiler, c, name=_getattr_col_key(c), **kw\n                            ),\n"), "C13-R7")
+R.mutant("store-key-getter-assigned-from-the-dict-key-getter", CRUD,
+         sub("    compiler._get_bind_name_for_col = _col_bind_name\n", "    compiler._get_bind_name_for_col = _getattr_col_key\n"), "C13-R7")
+R.mutant("multitable-onupdate-prefetch-bind-named-by-plain-key", CRUD,
+         sub(_MT_SITE, "                            _create_update_prefetch_bind_param(\n"
+                       "                                compiler, c, name=c.key, **kw\n                            ),\n"), "C13-R7")
+_MT_ARM = ("                else:\n                    values.append(\n                        (\n                            c,\n"
+           "                            compiler.process(c, include_table=include_table),\n" + _MT_SITE +
+           "                            (c.key,),\n                        )\n                    )\n")
+R.mutant("benign-s2f-multitable-bind-name-through-a-local", CRUD,
+         sub(_MT_ARM, "                else:\n                    bind_name = _col_bind_name(c)\n                    values.append(\n"
+                      "                        (\n                            c,\n"
+                      "                            compiler.process(c, include_table=include_table),\n"
+                      "                            _create_update_prefetch_bind_param(\n"
+                      "                                compiler, c, name=bind_name, **kw\n                            ),\n"
+                      "                            (c.key,),\n                        )\n                    )\n"), None)
+R.mutant("benign-s2f-multitable-bind-name-positional", CRUD,
+         sub(_MT_SITE, "                            _create_update_prefetch_bind_param(\n"
+                       "                                compiler, c, True, _col_bind_name(c), **kw\n                            ),\n"), None)
+R.mutant("benign-s2f-multitable-prefetch-arm-inverted", CRUD,
+         sub("                if c.onupdate.is_clause_element:\n                    values.append(\n                        (\n"
+             "                            c,\n                            compiler.process(c, include_table=include_table),\n"
+             "                            compiler.process(\n                                c.onupdate.arg.self_group(), **kw\n"
+             "                            ),\n                            (),\n                        )\n                    )\n"
+             "                    compiler.postfetch.append(c)\n" + _MT_ARM,
+             "                if not c.onupdate.is_clause_element:\n                    values.append(\n                        (\n"
+             "                            c,\n                            compiler.process(c, include_table=include_table),\n" + _MT_SITE +
+             "                            (c.key,),\n                        )\n                    )\n"
+             "                else:\n                    values.append(\n                        (\n"
+             "                            c,\n                            compiler.process(c, include_table=include_table),\n"
+             "                            compiler.process(\n                                c.onupdate.arg.self_group(), **kw\n"
+             "                            ),\n                            (),\n                        )\n                    )\n"
+             "                    compiler.postfetch.append(c)\n"), None)
+_MT_CLAUSE_ARM = ("                if c.onupdate.is_clause_element:\n                    values.append(\n                        (\n"
+                  "                            c,\n                            compiler.process(c, include_table=include_table),\n"
+                  "                            compiler.process(\n                                c.onupdate.arg.self_group(), **kw\n"
+                  "                            ),\n                            (),\n                        )\n                    )\n"
+                  "                    compiler.postfetch.append(c)\n")
+R.mutant("benign-s2f-multitable-onupdate-arms-in-a-helper-function", CRUD,
+         chain(sub("def _get_update_multitable_params(\n",
+                   "def _append_param_update_multitable(\n    compiler, c, include_table, _col_bind_name, values, kw\n):\n"
+                   "    col_text = compiler.process(c, include_table=include_table)\n"
+                   "    if c.onupdate.is_clause_element:\n"
+                   "        values.append(\n            (c, col_text, compiler.process(c.onupdate.arg.self_group(), **kw), ())\n        )\n"
+                   "        compiler.postfetch.append(c)\n    else:\n"
+                   "        bind = _create_update_prefetch_bind_param(\n            compiler, c, name=_col_bind_name(c), **kw\n        )\n"
+                   "        values.append((c, col_text, bind, (c.key,)))\n\n\ndef _get_update_multitable_params(\n"),
+               sub(_MT_CLAUSE_ARM + _MT_ARM,
+                   "                _append_param_update_multitable(\n                    compiler, c, include_table, _col_bind_name, values, kw\n"
+                   "                )\n")), None)
+R.mutant("helper-function-names-multitable-prefetch-bind-by-plain-key", CRUD,
+         chain(sub("def _get_update_multitable_params(\n",
+                   "def _append_param_update_multitable(\n    compiler, c, include_table, _col_bind_name, values, kw\n):\n"
+                   "    col_text = compiler.process(c, include_table=include_table)\n"
+                   "    if c.onupdate.is_clause_element:\n"
+                   "        values.append(\n            (c, col_text, compiler.process(c.onupdate.arg.self_group(), **kw), ())\n        )\n"
+                   "        compiler.postfetch.append(c)\n    else:\n"
+                   "        bind = _create_update_prefetch_bind_param(compiler, c, **kw)\n"
+                   "        values.append((c, col_text, bind, (c.key,)))\n\n\ndef _get_update_multitable_params(\n"),
+               sub(_MT_CLAUSE_ARM + _MT_ARM,
+                   "                _append_param_update_multitable(\n                    compiler, c, include_table, _col_bind_name, values, kw\n"
+                   "                )\n")), "C13-R7")
